@@ -17,7 +17,7 @@ from hypothesis import strategies as st
 # containers
 
 DENSE = ["ndarray", "ndarray_F"]
-SPARSE = ["csr", "csc", "coo", "lil", "dok", "dia", "bsr", "csr_expl0", "coo_dup", "csr_array", "coo_array"]
+SPARSE = ["csr", "csc", "coo", "lil", "dok", "dia", "bsr", "csr_expl0", "coo_dup", "csr_array", "coo_array", "csr_idx64", "csc_unsorted"]
 CONTAINERS = DENSE + SPARSE
 
 
@@ -48,6 +48,20 @@ def to_container(T, name):
         return sp.csr_array(T)
     if name == "coo_array":
         return sp.coo_array(T)
+    if name == "csr_idx64":
+        # int64 index arrays (what scipy produces for matrices derived from very large ones)
+        m = sp.csr_matrix(T)
+        m.indices = m.indices.astype(np.int64)
+        m.indptr = m.indptr.astype(np.int64)
+        return m
+    if name == "csc_unsorted":
+        # entries of every column stored in descending row order: same matrix, indices not sorted
+        m = sp.csc_matrix(T)
+        data, ind, ptr = m.data.copy(), m.indices.copy(), m.indptr
+        for k in range(T.shape[1]):
+            data[ptr[k]:ptr[k + 1]] = data[ptr[k]:ptr[k + 1]][::-1]
+            ind[ptr[k]:ptr[k + 1]] = ind[ptr[k]:ptr[k + 1]][::-1]
+        return sp.csc_matrix((data, ind, ptr.copy()), shape=T.shape)
     raise ValueError(name)
 
 
